@@ -46,13 +46,13 @@ type Case struct {
 	Double   string `json:"double"`    // once | twice-seq | twice-conc
 	Via      string `json:"via"`       // runner | scheduler | condition (unevaluable stage condition cancels the run)
 	BurstM   int    `json:"burst_marker,omitempty"`
-	CondAt   int    `json:"cond_at,omitempty"`  // which stage carries the bad condition (condition only)
-	DelayMs  int    `json:"delay_ms,omitempty"` // extra wait before the cancel
-	Nested   bool   `json:"nested,omitempty"`   // via condition: the stage with the bad condition sits in a pipeline that is itself a stage
-	Stubborn bool   `json:"stubborn,omitempty"` // the long command ignores SIGINT: it dies only after the interpreter's 2 s kill grace
+	CondAt   int    `json:"cond_at,omitempty"`       // which stage carries the bad condition (condition only)
+	DelayMs  int    `json:"delay_ms,omitempty"`      // extra wait before the cancel
+	Nested   bool   `json:"nested,omitempty"`        // via condition: the stage with the bad condition sits in a pipeline that is itself a stage
+	Stubborn bool   `json:"stubborn,omitempty"`      // the long command ignores SIGINT: it dies only after the interpreter's 2 s kill grace
 	Allow    bool   `json:"allow_failure,omitempty"` // the tasks allow failure: an interruption is still not a success
 	Tmo      bool   `json:"timeout,omitempty"`       // the tasks carry a (generous) timeout of their own
-	Ctx      bool   `json:"ctx,omitempty"`      // the tasks run in an execution context that has before/after commands of its own
+	Ctx      bool   `json:"ctx,omitempty"`           // the tasks run in an execution context that has before/after commands of its own
 }
 
 func (c Case) canon() string { b, _ := json.Marshal(c); return string(b) }
